@@ -35,7 +35,7 @@ from . import core, devices
 # candidate repairs (exact change test for the applied potential; terminal value re-imposed
 # after the Euler step).  Which one the tree under test implements is decided by TLC
 # (trace validation under both), and that mechanism is then model-checked.
-CODE = dict(MMask=True, MBothHalves=True, MFreshLinks=True, MFixPsi=True)
+CODE = dict(MMask=True, MBothHalves=True, MFreshLinks=True, MFixPsi=True, MFixFlag="at_use")
 PINNED = dict(MTrigger="prev_close", MReimpose="never", MReimposeOnRetry=True, **CODE)
 REPAIRED = dict(MTrigger="exact", MReimpose="configured", MReimposeOnRetry=True, **CODE)
 
@@ -45,13 +45,13 @@ INV_C06_OPS = ["TypeOK", "FixedRowsAreIdentity", "NoOtherRowPinned"]
 INV_C06_STEP = ["TypeOK", "FixedRowsAreIdentity", "NoOtherRowPinned", "PinnedSitesStayPinned", "UnsetMeansFree"]
 
 OPS_DEFAULT = dict(Insts=["strip6", "fan5"], Modes=["none", "terminals", "disabled"], QIds=[1, 2, 3, 4], MaxCalls=6,
-                   Scrs=[False], Dyns=[False], Vs=["zero"], Seeds=["configured"], MaxSteps=0, MaxIter=0, AMax=3, IMax=3)
+                   Scrs=[False], Dyns=[False], Vs=["zero"], Seeds=["configured"], Forms=["keyword"], MaxSteps=0, MaxIter=0, AMax=3, IMax=3)
 STEP_DEFAULT = dict(Insts=["fan5"], Modes=["none", "terminals", "disabled"], QIds=[1], MaxCalls=0,
                     Scrs=[False, True], Dyns=[False, True], Vs=["zero", "nonzero", "none"], Seeds=["configured", "other"],
-                    MaxSteps=3, MaxIter=1, AMax=3, IMax=3)
+                    Forms=["keyword", "assign"], MaxSteps=3, MaxIter=1, AMax=3, IMax=3)
 TRACE_BOUNDS = dict(Insts=["strip6", "fan5"], Modes=["none", "terminals", "disabled"], QIds=[1], MaxCalls=10 ** 6,
                     Scrs=[False, True], Dyns=[False, True], Vs=["zero", "nonzero", "none"], Seeds=["configured", "other"],
-                    MaxSteps=10 ** 6, MaxIter=10 ** 6, AMax=250, IMax=250)
+                    Forms=["keyword"], MaxSteps=10 ** 6, MaxIter=10 ** 6, AMax=250, IMax=250)
 
 
 def _set(xs):
@@ -61,7 +61,7 @@ def _set(xs):
 def cfg_text(bounds, mech, invariants, spec, view=None, extra=""):
     b = bounds
     lines = ["CONSTANTS"]
-    for k in ("Insts", "Modes", "QIds", "Scrs", "Dyns", "Vs", "Seeds"):
+    for k in ("Insts", "Modes", "QIds", "Scrs", "Dyns", "Vs", "Seeds", "Forms"):
         lines.append(f" {k} = {_set(b[k])}")
     for k in ("MaxCalls", "MaxSteps", "MaxIter", "AMax", "IMax"):
         lines.append(f" {k} = {b[k]}")
@@ -210,7 +210,7 @@ def replay_ops(tdgl, a, tmp):
             ops.set_link_exponents(pots[qid])
             evs.append(_ops_event(tdgl, ops, pots[qid], qid, fixed, first,
                                   scale_lap=d["area"], scale_grad=d["len"]))
-        out.append(dict(level="ops", inst=d["name"], mode=a["mode"], scr=False, dyn=False, v="zero", seed="configured",
+        out.append(dict(level="ops", inst=d["name"], mode=a["mode"], scr=False, dyn=False, v="zero", seed="configured", form="keyword", v0="zero",
                         exact=True, driven=False, ev=evs))
     return out
 
@@ -244,7 +244,7 @@ def replay_ops_generated(tdgl, a, tmp):
                 first = ops.psi_gradient is None
                 ops.set_link_exponents(pots[qid])
                 evs.append(_ops_event(tdgl, ops, pots[qid], qid, fixed, first))
-            out.append(dict(level="ops", inst="strip6", mode=mode, scr=False, dyn=False, v="zero", seed="configured",
+            out.append(dict(level="ops", inst="strip6", mode=mode, scr=False, dyn=False, v="zero", seed="configured", form="keyword", v0="zero",
                             exact=False, driven=False, ev=evs, sites=int(len(mesh.sites))))
     return out
 
@@ -290,6 +290,14 @@ def _term_class(psi, sites, v):
     return "eq" if float(np.max(np.abs(vals - v))) <= 1e-12 else "drift"
 
 
+def _parse_psi(tp):
+    return None if tp == "none" else (complex(tp[0], tp[1]) if tp[1] else float(tp[0]))
+
+
+def _psi_class(x):
+    return "none" if x is None else ("zero" if x == 0 else "nonzero")
+
+
 def natural_run(tdgl, a, tmp):
     """One real tdgl.solve observed through wrappers.  a: dev, field (mT), current (uA), steps, dt,
     screening, terminal_psi ('none' | [re, im]), ramp = dict(r1, T1, r2) | None (static field)."""
@@ -298,8 +306,7 @@ def natural_run(tdgl, a, tmp):
     from tdgl.solver.solver import TDGLSolver
 
     dev = devices.make(tdgl, a.get("dev", "bar"), mel=a.get("mel", 0.8))
-    tp = a.get("terminal_psi", [0.0, 0.0])
-    v = None if tp == "none" else (complex(tp[0], tp[1]) if tp[1] else float(tp[0]))
+    v = _parse_psi(a.get("terminal_psi", [0.0, 0.0]))
     dt = a.get("dt", 2.0 ** -6)
     ad = a.get("adaptive")        # dict(dt_init, dt_max, solve_time[, window, max_retries]): adaptive steps with retries
     work = tempfile.mkdtemp(prefix="opsnat", dir=tmp)
@@ -309,10 +316,29 @@ def natural_run(tdgl, a, tmp):
                       adaptive_window=ad.get("window", 3), max_solve_retries=ad.get("max_retries", 10))
     else:
         timing = dict(solve_time=a["steps"] * dt - dt / 2, dt_init=dt, adaptive=False)
-    opts = tdgl.SolverOptions(**timing, save_every=1,
-                              progress_interval=10 ** 9, pause_on_interrupt=False, output_file=out,
-                              include_screening=bool(a.get("screening", False)), field_units="mT", current_units="uA",
-                              terminal_psi=v, screening_tolerance=a.get("screening_tol", 1e-3))
+    common = dict(timing, save_every=1, progress_interval=10 ** 9, pause_on_interrupt=False, output_file=out,
+                  include_screening=bool(a.get("screening", False)), field_units="mT", current_units="uA",
+                  screening_tolerance=a.get("screening_tol", 1e-3))
+    # equivalent API forms of configuring the terminal value (all must give the same pin semantics)
+    form = a.get("form", "keyword")
+    v0 = _parse_psi(a["psi0"]) if "psi0" in a else v        # value the options object is CONSTRUCTED with
+    if form == "keyword":
+        opts = tdgl.SolverOptions(**common, terminal_psi=v)
+    elif form == "assign":
+        opts = tdgl.SolverOptions(**common, terminal_psi=v0)
+        opts.terminal_psi = v
+    elif form == "replace":
+        import dataclasses
+        opts = dataclasses.replace(tdgl.SolverOptions(**common, terminal_psi=v0), terminal_psi=v)
+    elif form in ("copy", "deepcopy", "pickle"):
+        import copy
+        import pickle
+        base = tdgl.SolverOptions(**common, terminal_psi=v)
+        opts = {"copy": copy.copy, "deepcopy": copy.deepcopy, "pickle": lambda o: pickle.loads(pickle.dumps(o))}[form](base)
+    elif form == "file":
+        pass            # built below (needs the drive): options read back from the file of a short run
+    else:
+        raise ValueError(form)
     term_info = dev.terminal_info()
     tsites = (np.concatenate([t.site_indices for t in term_info]).astype(np.int64) if term_info
               else np.array([], dtype=np.int64))
@@ -328,11 +354,18 @@ def natural_run(tdgl, a, tmp):
     else:
         kw["applied_vector_potential"] = a.get("field", 0.0)
 
+    if form == "file":
+        pre = tdgl.SolverOptions(**dict(common, output_file=os.path.join(work, "pre.h5"), solve_time=timing["dt_init"] * 1.5),
+                                 terminal_psi=v)
+        pre_sol = tdgl.solve(dev, pre, **kw)
+        opts = tdgl.Solution.from_hdf5(pre_sol.path).options
+        opts.output_file = out
+        opts.solve_time = timing["solve_time"]
     # seed chain: unobserved runs with other terminal values, each seeded from the previous one; the observed run
     # starts from the last one (seed_solution).  Same device, drive and timing; only terminal_psi differs.
     seed = None
     for n, stp in enumerate(a.get("seed_chain") or []):
-        sv = None if stp == "none" else (complex(stp[0], stp[1]) if stp[1] else float(stp[0]))
+        sv = _parse_psi(stp)
         so = tdgl.SolverOptions(**dict(timing, solve_time=a.get("seed_time", 8 * dt)), save_every=4, progress_interval=10 ** 9,
                                 pause_on_interrupt=False, output_file=os.path.join(work, f"seed{n}.h5"),
                                 include_screening=False, field_units="mT", current_units="uA", terminal_psi=sv)
@@ -526,7 +559,8 @@ def natural_run(tdgl, a, tmp):
     if mode == "none":
         vcls = "zero"
     return dict(level="step", inst="fan5", mode=mode, scr=bool(opts.include_screening), dyn=ramp is not None, v=vcls,
-                seed=("other" if seed_cls == "seed" else "configured"), exact=False, driven=bool(a.get("field") or a.get("current")), ev=ev,
+                seed=("other" if seed_cls == "seed" else "configured"), form=form,
+                v0=(_psi_class(v0) if form == "assign" else vcls), exact=False, driven=bool(a.get("field") or a.get("current")), ev=ev,
                 info=dict(sites=nsites, terminal_sites=int(len(tsites)), frames=len(classes), steps=nfin,
                           max_relative_staleness=st["max_stale"], first_stale_step=st["first_stale"],
                           max_terminal_deviation_in_frames=worst, seeded=seed is not None, retried_steps=st["retried_steps"],
